@@ -8,7 +8,7 @@ From GL Require Import VMX.Machine.
 
 Definition th_valid (s : vstate) (t : nat) : Prop := (t < length (vthreads s))%nat.
 
-Lemma thread_eta : forall th, mkTh (th_reg th) (th_stack th) (th_uvcache th) (th_parent th) (th_wrapped th) (th_dead th) (th_started th) = th.
+Lemma thread_eta : forall th, mkTh (th_reg th) (th_stack th) (th_uvcache th) (th_parent th) (th_wrapped th) (th_dead th) (th_started th) (th_nccalls th) = th.
 Proof. destruct th; reflexivity. Qed.
 
 (* the switch changes no thread's record -- not the one suspended, not the one resumed, not a
